@@ -482,18 +482,21 @@ theorem report_ok (s : State) (u : Ups) (j : Inst) (ri : List (Str × Kind)) (q 
     · rename_i hst
       split at h
       · cases h
-      · rename_i upc hupc
+      · rename_i hlock
         split at h
         · cases h
-        · rename_i kept hk
+        · rename_i upc hupc
           split at h
           · cases h
-          · rename_i hq
-            simp only [Out.reported.injEq] at h
-            refine ⟨by simpa using hl, upc, hupc, ?_⟩
-            unfold report
-            simp only [hl, hst, hupc, hk, hq, if_false, Bool.false_eq_true]
-            rw [h]
+          · rename_i kept hk
+            split at h
+            · cases h
+            · rename_i hq
+              simp only [Out.reported.injEq] at h
+              refine ⟨by simpa using hl, upc, hupc, ?_⟩
+              unfold report
+              simp only [hl, hst, hlock, hupc, hk, hq, if_false, Bool.false_eq_true]
+              rw [h]
 
 theorem report_out_cases (s : State) (u : Ups) (j : Inst) (ri : List (Str × Kind)) (q : List Item) :
     (∃ e, (report shardOf s u j ri q).2 = .err e) ∨ (∃ l, (report shardOf s u j ri q).2 = .reported l) := by
